@@ -134,4 +134,8 @@ def genesisDepositsOk (nd : Nat) (tunnels : List (Nat × List Nat)) (deps : List
 def genesisTunnelsOk (count : Nat) (ids : List Nat) : Bool :=
   ids.length == count && ids.all (fun i => decide (i ≤ count)) && decide ids.Nodup
 
+/-- the escrow clause of `InitGenesis`: the tunnel module account holds EXACTLY the imported deposits plus the fees
+    (per denom); otherwise the import panics -/
+def importBacked (escrowed balance : List Nat) : Bool := escrowed == balance
+
 end BandVerif.TunnelDeposit
